@@ -105,8 +105,10 @@ ProjOK(s, p) ==
 (* alarm.                                                                  *)
 (***************************************************************************)
 HeapOrdered(lay, c) == \A i \in 2..Len(lay) : ~Cmp(c, lay[i], lay[i \div 2])
+\* (after a Delete that was not followed by an observation - a sparse recording - the array cannot be
+\* looked at: the finding may have struck, judging stops below it as long as the finding is open)
 Trig(S, e) == IF "KF-C03-1" \in OpenKF /\ e.op.n = "delete" /\ e.res.ok /\ ~e.res.p
-                 /\ \E s \in S : ~HeapOrdered(e.proj.lay, s.c)
+                 /\ ("np" \in DOMAIN e.op \/ \E s \in S : ~HeapOrdered(e.proj.lay, s.c))
               THEN {"KF-C03-1"} ELSE {}
 KFOut(s, op) == {}
 =============================================================================
